@@ -202,6 +202,7 @@ enum ParentKind {
   P_CTX_ROOT,         // explicit Context without a span, marked kIsRootSpanKey
   P_CTX_CURRENT_ROOT, // the current runtime Context (holds the active span, if any) marked kIsRootSpanKey
   P_CTX_INVALID_SPAN, // explicit Context holding a span whose context is invalid
+  P_CTX_ROOT_FALSE,   // explicit Context without a span whose kIsRootSpanKey is bound to FALSE (marked, then un-marked): not a root request
   P_SC_LOCAL,         // explicit SpanContext of the most recent span of the program (local, not remote); needs a span
   P_CTX_SPAN_BASE     // + i: explicit Context holding the i-th most recent span of the program
 };
@@ -314,6 +315,11 @@ struct Exec {
       permitted.push_back(tr::SpanContext::GetInvalid());
       if (active.IsValid()) permitted.push_back(active);
       how = "Context(current+root)";
+    } else if (pk == P_CTX_ROOT_FALSE) {
+      ctxns::Context cx;
+      opts.parent = spans.size() % 2 == 0 ? cx.SetValue(tr::kIsRootSpanKey, false) : cx.SetValue(tr::kIsRootSpanKey, true).SetValue(tr::kIsRootSpanKey, false);
+      or_active();  // "marked as root" means marked true: this context neither holds a span nor asks for a root
+      how = "Context(root=false)";
     } else if (pk == P_SC_LOCAL) {
       opts.parent = spans.back().ctx;
       permitted.push_back(spans.back().ctx);
